@@ -1563,6 +1563,9 @@ class Stream(AbstractStream):
             tc1._T = tc2._T = tc._T
             tc1._P = tc2._P = tc._P
             s1.phase = s2.phase = self.phase
+        else:
+            for s in (s1, s2): # A multi-phase outlet takes the phase of the feed (as it does with an energy balance)
+                if s is not self and hasattr(s._imol, '_phases'): s.phase = self.phase
         if s1.chemicals is chemicals: 
             s1.mol[:] = values
         else:
